@@ -141,6 +141,21 @@ func (c *Ctx) checkNesting() {
 		}
 		return nil
 	}
+	comparedCounter := func(cond ssa.Value) *types.Var {
+		bo, ok := cond.(*ssa.BinOp)
+		if !ok {
+			return nil
+		}
+		switch bo.Op {
+		case token.GEQ, token.GTR, token.LSS, token.LEQ:
+		default:
+			return nil
+		}
+		if fld := loadOfCounter(bo.X); fld != nil {
+			return fld
+		}
+		return loadOfCounter(bo.Y)
+	}
 	// counts: inside f, a comparison of a counter with a bound decides, on a branch that
 	// dominates `site` (or, with site == nil, the increment), whether it is reached at all, the
 	// other side ends in an error return; and the same counter is incremented on the way.
@@ -149,18 +164,26 @@ func (c *Ctx) checkNesting() {
 		var tests []*ssa.BasicBlock
 		for _, b := range f.Blocks {
 			cond, tb, fb := condBranch(b)
-			bo, ok := cond.(*ssa.BinOp)
-			if !ok {
+			if cond == nil {
 				continue
 			}
-			switch bo.Op {
-			case token.GEQ, token.GTR, token.LSS, token.LEQ:
-			default:
-				continue
+			if neg, isNot := stripNot(cond); isNot {
+				cond = neg
 			}
-			fld := loadOfCounter(bo.X)
+			fld := comparedCounter(cond)
 			if fld == nil {
-				fld = loadOfCounter(bo.Y)
+				// a predicate of the package that does the comparison: if env.tooDeep() { return err }
+				if call, isCall := cond.(*ssa.Call); isCall {
+					if g := call.Call.StaticCallee(); g != nil && fnPkgPath(g) == zygoPath && len(g.Blocks) > 0 {
+						for _, r := range returnsOf(g) {
+							if len(r.Results) == 1 {
+								if f2 := comparedCounter(r.Results[0]); f2 != nil {
+									fld = f2
+								}
+							}
+						}
+					}
+				}
 			}
 			if fld == nil {
 				continue
